@@ -53,10 +53,20 @@ pub enum Fault {
     // ---- temporary descriptor exhaustion (cluster runs under a low RLIMIT_NOFILE)
     FdExhaustionServer,
     FdExhaustionClient,
+    /// descriptor exhaustion that walks through a flow: idle connections take every descriptor of the client (resp. of the
+    /// server), then they are released one at a time and after each release a complete, well-behaved flow is attempted -
+    /// so a flow fails at its first, its second, ... its n-th descriptor (local socket, its duplicate, the server socket,
+    /// the certificate file, the target socket ...)
+    FdStarvedFlowsClient,
+    FdStarvedFlowsServer,
+    // ---- many failed handshakes, one after another, all finished and closed (whatever a failed handshake leaves behind
+    //      adds up)
+    SrvHandshakeFlood,
+    CliHandshakeFlood,
 }
 
 impl Fault {
-    pub const ALL: [Fault; 20] = [
+    pub const ALL: [Fault; 24] = [
         Fault::SrvStall,
         Fault::SrvPartialTlsHello,
         Fault::SrvGarbageHold,
@@ -77,19 +87,23 @@ impl Fault {
         Fault::UdpJunkToClientOutbound,
         Fault::FdExhaustionServer,
         Fault::FdExhaustionClient,
+        Fault::FdStarvedFlowsClient,
+        Fault::FdStarvedFlowsServer,
+        Fault::SrvHandshakeFlood,
+        Fault::CliHandshakeFlood,
     ];
     pub fn is_udp(&self) -> bool {
         matches!(self, Fault::UdpJunkToServer | Fault::UdpReplayToServer | Fault::UdpUnresolvableTarget | Fault::UdpMalformedLocal | Fault::UdpJunkToClientOutbound)
     }
     pub fn needs_low_nofile(&self) -> bool {
-        matches!(self, Fault::FdExhaustionServer | Fault::FdExhaustionClient)
+        matches!(self, Fault::FdExhaustionServer | Fault::FdExhaustionClient | Fault::FdStarvedFlowsClient | Fault::FdStarvedFlowsServer)
     }
     /// can this fault be applied to this configuration at all?
     pub fn applies(&self, spec: &Spec) -> bool {
         let is_ss = matches!(spec.proto, Proto::SsLegacy(_) | Proto::Ss22(_));
         let has_tcp_listener = !(is_ss && spec.transport == Transport::Quic);
         match self {
-            Fault::SrvStall | Fault::SrvPartialTlsHello | Fault::SrvGarbageHold | Fault::SrvGarbageClose | Fault::SrvHalfWsUpgrade | Fault::SrvConnectClose | Fault::FdExhaustionServer => has_tcp_listener,
+            Fault::SrvStall | Fault::SrvPartialTlsHello | Fault::SrvGarbageHold | Fault::SrvGarbageClose | Fault::SrvHalfWsUpgrade | Fault::SrvConnectClose | Fault::FdExhaustionServer | Fault::FdStarvedFlowsServer | Fault::SrvHandshakeFlood => has_tcp_listener,
             Fault::UdpJunkToServer | Fault::UdpReplayToServer => spec.udp && is_ss,
             f if f.is_udp() => spec.udp,
             _ => true,
@@ -101,6 +115,10 @@ impl Fault {
 pub struct Case {
     pub spec: Spec,
     pub faults: Vec<Fault>,
+    /// the faults hit freshly started processes: no well-behaved flow has run before them (whatever the processes set up
+    /// at first use is set up under the fault)
+    #[serde(default)]
+    pub cold: bool,
 }
 
 /// Representative configurations: every protocol over tcp, tls and ws (+ one wss and one quic), Shadowsocks with UDP.
@@ -377,6 +395,66 @@ fn apply(f: Fault, env: &mut Env, k: usize) -> bool {
             }
             !ports.is_empty()
         }
+        Fault::SrvHandshakeFlood | Fault::CliHandshakeFlood => {
+            let port = if f == Fault::SrvHandshakeFlood { sp } else { cp };
+            let mut done = 0usize;
+            // 16 rounds of 40 connections: junk, a plain HTTP request, or nothing at all; every one is closed again
+            for round in 0..16u64 {
+                let v: Vec<TcpStream> = (0..40).filter_map(|_| connect(port)).collect();
+                for (i, mut s) in v.into_iter().enumerate() {
+                    let _ = match (round + i as u64) % 3 {
+                        0 => s.write_all(&junk(64, salt * 1000 + round * 40 + i as u64)),
+                        1 => s.write_all(b"GET / HTTP/1.0\r\nHost: localhost\r\n\r\n"),
+                        _ => Ok(()),
+                    };
+                    let _ = s.shutdown(Shutdown::Both);
+                    done += 1;
+                }
+                std::thread::sleep(Duration::from_millis(15));
+            }
+            std::thread::sleep(Duration::from_millis(300));
+            env.notes.push(format!("{} failed handshakes on port {}", done, port));
+            done >= 500
+        }
+        Fault::FdStarvedFlowsClient | Fault::FdStarvedFlowsServer => {
+            let (port, pid) = if f == Fault::FdStarvedFlowsServer { (sp, env.cl.server.pid) } else { (cp, env.cl.client.pid) };
+            let limit = env.cl.spec.nofile.unwrap_or(0) as usize;
+            let mut v = vec![];
+            let mut peak = 0;
+            for _ in 0..(limit + 40) {
+                if let Some(s) = connect(port) {
+                    v.push(s);
+                }
+                peak = peak.max(procfs::fd_count(pid));
+            }
+            std::thread::sleep(Duration::from_millis(200));
+            peak = peak.max(procfs::fd_count(pid));
+            // connections beyond the limit sit in the accept queue; the process holds `peak` descriptors. Free them one at a
+            // time (oldest first: those are the accepted ones) and attempt a whole flow after each release.
+            let mut attempts = 0;
+            let l = Listener::bind();
+            for step in 0..7 {
+                if !v.is_empty() {
+                    drop(v.remove(0));
+                }
+                std::thread::sleep(Duration::from_millis(60));
+                if let Ok((mut app, _)) = net::app_connect(cp, Hs::Socks5V4, l.port, Duration::from_millis(700)) {
+                    let _ = app.write_all(&junk(500, salt + step));
+                    if let Some(mut t) = l.accept(Duration::from_millis(500)) {
+                        let _ = t.write_all(b"answer");
+                        let _ = t.shutdown(Shutdown::Both);
+                    }
+                    app.set_read_timeout(Some(Duration::from_millis(300))).ok();
+                    let mut b = [0u8; 64];
+                    let _ = app.read(&mut b);
+                }
+                attempts += 1;
+            }
+            drop(v);
+            std::thread::sleep(Duration::from_millis(500));
+            env.notes.push(format!("fd peak {} of limit {}, {} flows attempted while starved", peak, limit, attempts));
+            limit > 0 && peak + 2 >= limit
+        }
         Fault::FdExhaustionServer | Fault::FdExhaustionClient => {
             let (port, pid) = if f == Fault::FdExhaustionServer { (sp, env.cl.server.pid) } else { (cp, env.cl.client.pid) };
             let limit = env.cl.spec.nofile.unwrap_or(0) as usize;
@@ -433,12 +511,19 @@ pub fn exec_once(c: &Case) -> CaseResult {
     };
     let mut env = Env { cl, held: vec![], udp_target: None, udp_app: None, notes: vec![] };
     let deadline = Duration::from_secs(if rt::failed_already() { 4 } else { 10 });
-    // the service works before anything goes wrong (otherwise the case says nothing about faults)
-    if let Err(e) = canary_tcp(env.cl.client_port, deadline, 1) {
+    // the service works before anything goes wrong (otherwise the case says nothing about faults); a cold case skips
+    // this on purpose: the faults are the first thing the fresh processes see
+    if c.cold {
+        res.labels.push("cold:faults-hit-fresh-processes".into());
+        if spec.udp {
+            env.udp_target = Some(UdpTarget::spawn(0, true));
+            env.udp_app = Some(net::udp_socket(Duration::from_millis(50)));
+        }
+    } else if let Err(e) = canary_tcp(env.cl.client_port, deadline, 1) {
         res.fail = Some((true, "service-not-working-before-faults".into(), format!("{} [{}]\n{}", e, spec.short(), env.cl.logs(6))));
         return res;
     }
-    if spec.udp {
+    if spec.udp && !c.cold {
         let t = UdpTarget::spawn(0, true);
         let app = net::udp_socket(Duration::from_millis(50));
         if let Err(e) = canary_udp(&app, env.cl.client_port, &t, 0) {
@@ -531,10 +616,10 @@ impl SubCheck for Faults {
         "fault-sequences"
     }
     fn strategy(&self, _tier: Tier) -> BoxedStrategy<Case> {
-        (proptest::sample::select(configs()), proptest::collection::vec(proptest::sample::select(Fault::ALL.to_vec()), 0..=4))
-            .prop_map(|(spec, faults)| {
+        (proptest::sample::select(configs()), proptest::collection::vec(proptest::sample::select(Fault::ALL.to_vec()), 0..=4), proptest::bool::weighted(0.3))
+            .prop_map(|(spec, faults, cold)| {
                 let faults: Vec<Fault> = faults.into_iter().filter(|f| f.applies(&spec)).collect();
-                Case { spec, faults }
+                Case { spec, faults, cold }
             })
             .boxed()
     }
@@ -545,7 +630,7 @@ impl SubCheck for Faults {
             out.label(l);
         }
         if r.effective > 0 {
-            out.nontrivial(format!("{}|{:?}", c.spec.short(), c.faults));
+            out.nontrivial(format!("{}|{:?}|{}", c.spec.short(), c.faults, c.cold));
         }
         if let Some((_, sig, msg)) = r.fail {
             out.fail(format!("fault-sequences/{}", sig), msg);
@@ -572,7 +657,7 @@ pub fn run(ctx: &mut PropCtx) {
     ctx.rule = "a sequence is non-trivial when at least one of its faults took effect (the harness observes the fault's own signature: the hostile connection is still open while the canary runs, the descriptor count reached the limit, the replayed datagram's first copy was delivered, ...); distinct by (configuration, fault sequence)".into();
     ctx.assumptions = vec![
         "the service is checked to work before the faults; the canaries after the faults get 10 s for an exchange that takes milliseconds and three paced datagrams each; a failed canary is confirmed on two more fresh clusters".into(),
-        "fault catalogue: stalled / garbage / partial TLS / partial WebSocket / connect-close peers on the server port; stalled / garbage / partial SOCKS5 applications on the client port; unresolvable and refused targets; application and target resets mid-flow; junk, replayed, unresolvable-target and malformed datagrams on server port, client port and the client's outbound sockets; temporary descriptor exhaustion of server and client under RLIMIT_NOFILE=80".into(),
+        "fault catalogue: stalled / garbage / partial TLS / partial WebSocket / connect-close peers on the server port; stalled / garbage / partial SOCKS5 applications on the client port; unresolvable and refused targets; application and target resets mid-flow; junk, replayed, unresolvable-target and malformed datagrams on server port, client port and the client's outbound sockets; temporary descriptor exhaustion of server and client under RLIMIT_NOFILE=80, also walked through a flow (idle connections take every descriptor, are released one at a time, a whole flow is attempted after each release - on freshly started processes in the exhaustive part); 640 failed handshakes in a row (junk, plain HTTP, connect-and-close) on the server's and on the client's listener".into(),
         "not in the catalogue: black-holed addresses (the sandbox has no route that drops packets)".into(),
     ];
     let cfgs = configs();
@@ -581,7 +666,8 @@ pub fn run(ctx: &mut PropCtx) {
     for s in &cfgs {
         for f in Fault::ALL {
             if f.applies(s) {
-                singles.push(Case { spec: s.clone(), faults: vec![f] });
+                // the starved-flow faults hit fresh processes (first-use set-up happens under the fault)
+                singles.push(Case { spec: s.clone(), faults: vec![f], cold: matches!(f, Fault::FdStarvedFlowsClient | Fault::FdStarvedFlowsServer) });
             }
         }
     }
@@ -597,7 +683,7 @@ pub fn run(ctx: &mut PropCtx) {
             for f in Fault::ALL {
                 for g in Fault::ALL {
                     if f.applies(s) && g.applies(s) {
-                        pairs.push(Case { spec: s.clone(), faults: vec![f, g] });
+                        pairs.push(Case { spec: s.clone(), faults: vec![f, g], cold: false });
                     }
                 }
             }
